@@ -19,7 +19,7 @@ from sklearn.base import BaseEstimator
 from .. import harness, loader, sx
 
 MOD = "vf.props.c10"
-LABELS = [(0, 1), (7, 3), (-1, 5)]
+LABELS = [(0, 1), (7, 3), (-1, 5), ("no", "yes")]  # the last pair: strings of unequal length
 
 
 class NodeClf(BaseEstimator):
@@ -128,29 +128,34 @@ def scenario_for(cfg):
         check_children(est.tree_, list(range(n)))
         # predictions on the training rows and on fresh rows
         Xq = numpy.arange(n + nq, dtype=float).reshape(-1, 1) + OFFSET
+        shift = OFFSET
+        if cfg.get("int_query"):
+            # an integer-typed feature matrix (counts, indicators): other values than the training rows
+            Xq, shift = numpy.arange(2, dtype=numpy.int64).reshape(-1, 1), 0
+        nrows = len(Xq)
         proba = est.predict_proba(Xq)
         pred = est.predict(Xq)
         path = est.decision_path(Xq)
-        C.true(proba.shape == (n + nq, 2) and path.shape == (n + nq, est.n_nodes_), "shapes")
+        C.true(proba.shape == (nrows, 2) and path.shape == (nrows, est.n_nodes_), "shapes")
         dense = numpy.asarray(path.todense())
-        for i in range(n + nq):
+        for i in range(nrows):
             nd = est.tree_
             want_path = [nd.index]
             while True:
-                p = nd.estimator.p(i + OFFSET)
+                p = nd.estimator.p(i + shift)
                 child = nd.above if bool(p > nd.threshold) else nd.below
                 if child is None:
                     break
                 nd = child
                 want_path.append(nd.index)
-            p = nd.estimator.p(i + OFFSET)
+            p = nd.estimator.p(i + shift)
             C.eq(proba[i, 1], p, "predict_proba=terminal-node's-probability", detail=i)
             C.eq(proba[i, 0] + proba[i, 1], 1, "probabilities-sum-to-one")
             C.true(pred[i] == (classes[1] if bool(p >= 0.5) else classes[0]), "predict=classes_[p1>=0.5]", detail=(i, pred[i]))
             C.true(sorted(numpy.nonzero(dense[i])[0].tolist()) == sorted(want_path), "decision_path=root-to-terminal-path", detail=(i, numpy.nonzero(dense[i])[0].tolist(), want_path))
         # a single row alone gets the same answer (per-row purity)
-        one = est.predict_proba(Xq[n - 1 : n])
-        C.eq(one[0, 1], proba[n - 1, 1], "batch==single-row")
+        one = est.predict_proba(Xq[nrows - 1 : nrows])
+        C.eq(one[0, 1], proba[nrows - 1, 1], "batch==single-row")
         # history: get_leaves_index after a refit on the same instance describes the new tree
         est.set_params(max_depth=1)
         est.fit(X, y)
@@ -169,17 +174,21 @@ def replay(cfg, inputs, label):
 
 def configs(tier):
     out = []
-    for labels in range(len(LABELS)):
+    for labels in range(3):
         for max_depth in (1, 2, 3) if tier == "quick" else (1, 2, 3, 4):
             for msl in (1, 2) if tier != "quick" else (1,):
                 for mss in (2, 3):
                     for algo in ("auto", "none"):
                         if tier == "quick" and (labels, algo) not in ((0, "auto"), (1, "none"), (2, "auto")):
                             continue
+                        if max_depth == 4 and ((msl, mss) != (1, 2) or labels != 0):
+                            continue  # depth 4 multiplies the paths: one label pair, the least restrictive stopping rules
                         out.append(dict(n=3, query=1, labels=labels, max_depth=max_depth, min_samples_leaf=msl, min_samples_split=mss, algo=algo))
                         if tier != "quick" and max_depth == 2 and msl == 1 and mss == 2 and labels == 0 and algo == "auto":
                             # 4 rows: every split of 4 rows at up to 3 nodes (the path count grows as 2^(rows x nodes))
                             out.append(dict(n=4, query=1, labels=labels, max_depth=max_depth, min_samples_leaf=msl, min_samples_split=mss, algo=algo))
+    out.append(dict(n=3, query=1, labels=0, max_depth=2, min_samples_leaf=1, min_samples_split=2, algo="none", int_query=True))
+    out.append(dict(n=3, query=1, labels=3, max_depth=2, min_samples_leaf=1, min_samples_split=2, algo="none"))
     return out
 
 
